@@ -934,7 +934,7 @@ class Interp:
     def is_(self, a, b):
         if a is None or b is None or a is NotImplemented or b is NotImplemented:
             for x, y in ((a, b), (b, a)):
-                if y is None and isinstance(x, SymObj) and hasattr(x, "py_is_none"):
+                if y is None and isinstance(x, (SymObj, ZV)) and hasattr(x, "py_is_none"):
                     return x.py_is_none(self)  # the value of a variable that may still hold None (havocked by a loop)
             if isinstance(a, ZV) or isinstance(b, ZV):
                 z = a if isinstance(a, ZV) else b
